@@ -217,7 +217,10 @@ var FrameKinds = []vm.OpCode{vm.CALL, vm.STATICCALL, vm.DELEGATECALL, vm.CALLCOD
 
 // FrameEffects name what the inner frame does before it ends.
 var FrameEffects = []string{"sstore-set", "sstore-clear", "sstore-clear-reset", "sstore-reset-original", "sstore-recreate", "tstore", "log",
-	"send", "sload-cold", "balance-cold", "create", "selfdestruct", "nested-ok-write"}
+	"send", "sload-cold", "balance-cold", "create", "selfdestruct", "nested-ok-write",
+	// the outer frame performs the same write on the same slot immediately before it opens the inner frame on an
+	// already warm callee (no other journalled change lies between the two writes)
+	"tstore-same-slot", "sstore-same-slot"}
 
 // FrameEndings name how the inner frame ends.
 var FrameEndings = []string{"stop", "revert", "invalid", "oog"}
@@ -236,8 +239,10 @@ func effect(a *Asm, e string) {
 		// the OUTER frame cleared slot 1 (refund granted there); re-creating it here takes the refund
 		// back inside the inner frame (same storage under DELEGATECALL / CALLCODE)
 		a.Push(9).Push(1).Op(vm.SSTORE)
-	case "tstore":
+	case "tstore", "tstore-same-slot":
 		a.Push(3).Push(1).Op(vm.TSTORE)
+	case "sstore-same-slot":
+		a.Push(8).Push(2).Op(vm.SSTORE)
 	case "log":
 		a.Push(4).Push(8).Push(0).Op(vm.LOG1)
 	case "send":
@@ -297,6 +302,14 @@ func DirectedFrames(kind vm.OpCode, e, ending string, outerFails bool) *Program 
 	if e == "sstore-recreate" {
 		a.Push(0).Push(1).Op(vm.SSTORE) // clear a slot that holds 5 in the pre-state: refund granted in the outer frame
 	}
+	switch e {
+	case "tstore-same-slot":
+		a.PushAddr(HelperA).Op(vm.BALANCE, vm.POP) // warm the callee first
+		a.Push(2).Push(1).Op(vm.TSTORE)
+	case "sstore-same-slot":
+		a.PushAddr(HelperA).Op(vm.BALANCE, vm.POP)
+		a.Push(7).Push(2).Op(vm.SSTORE)
+	}
 	gas := uint64(120000)
 	switch kind {
 	case vm.CREATE, vm.CREATE2:
@@ -343,7 +356,7 @@ func MinFork(kind vm.OpCode, e, ending string) int {
 	if ending == "revert" {
 		up(Byzantium)
 	}
-	if e == "tstore" {
+	if e == "tstore" || e == "tstore-same-slot" {
 		up(Cancun)
 	}
 	return m
